@@ -181,7 +181,13 @@ impl MaxCharsCommandSizeLimiter {
             .map(|(var, value)| count_osstr_chars_for_exec(var) + count_osstr_chars_for_exec(value))
             .sum();
 
-        Self::new(arg_max - ARG_HEADROOM - env_size)
+        // An environment that (nearly) fills the limit leaves no room at all;
+        // the base command is then reported as too large instead of panicking.
+        Self::new(
+            arg_max
+                .saturating_sub(ARG_HEADROOM)
+                .saturating_sub(env_size),
+        )
     }
 }
 
